@@ -211,6 +211,9 @@ pub enum Dyn {
     U16(u16),
     I16(i16),
     U32(u32),
+    /// a hand-written codec that calls write_var_u32 / write_var_i32 directly (public BinaryOutput API)
+    VarU32(u32),
+    VarI32(i32),
     I32(i32),
     U64(u64),
     I64(i64),
@@ -300,7 +303,8 @@ impl Ord for Dyn {
             (I8(a), I8(b)) => a.cmp(b),
             (U16(a), U16(b)) => a.cmp(b),
             (I16(a), I16(b)) => a.cmp(b),
-            (U32(a), U32(b)) => a.cmp(b),
+            (U32(a), U32(b)) | (VarU32(a), VarU32(b)) => a.cmp(b),
+            (VarI32(a), VarI32(b)) => a.cmp(b),
             (I32(a), I32(b)) => a.cmp(b),
             (U64(a), U64(b)) => a.cmp(b),
             (I64(a), I64(b)) => a.cmp(b),
@@ -406,6 +410,8 @@ pub fn build(ty: &Ty, s: &Sx) -> Dyn {
             "u16" => Dyn::U16(num(s, 'n')),
             "i16" => Dyn::I16(num(s, 'z')),
             "u32" => Dyn::U32(num(s, 'n')),
+            "varu32" => Dyn::VarU32(num(s, 'n')),
+            "vari32" => Dyn::VarI32(num(s, 'z')),
             "i32" => Dyn::I32(num(s, 'z')),
             "u64" => Dyn::U64(num(s, 'n')),
             "i64" => Dyn::I64(num(s, 'z')),
@@ -541,6 +547,8 @@ pub fn print_val(v: &Dyn, canonical: bool) -> String {
         Dyn::U16(x) => format!("n{x}"),
         Dyn::I16(x) => format!("z{x}"),
         Dyn::U32(x) => format!("n{x}"),
+        Dyn::VarU32(x) => format!("n{x}"),
+        Dyn::VarI32(x) => format!("z{x}"),
         Dyn::I32(x) => format!("z{x}"),
         Dyn::U64(x) => format!("n{x}"),
         Dyn::I64(x) => format!("z{x}"),
@@ -651,6 +659,14 @@ impl BinarySerializer for Dyn {
             Dyn::U16(x) => x.serialize(c),
             Dyn::I16(x) => x.serialize(c),
             Dyn::U32(x) => x.serialize(c),
+            Dyn::VarU32(x) => {
+                c.write_var_u32(*x);
+                Ok(())
+            }
+            Dyn::VarI32(x) => {
+                c.write_var_i32(*x);
+                Ok(())
+            }
             Dyn::I32(x) => x.serialize(c),
             Dyn::U64(x) => x.serialize(c),
             Dyn::I64(x) => x.serialize(c),
@@ -821,6 +837,8 @@ pub fn decode(ty: &Ty, c: &mut DeserializationContext<'_>) -> Result<Dyn> {
             "u16" => Dyn::U16(u16::deserialize(c)?),
             "i16" => Dyn::I16(i16::deserialize(c)?),
             "u32" => Dyn::U32(u32::deserialize(c)?),
+            "varu32" => Dyn::VarU32(c.read_var_u32()?),
+            "vari32" => Dyn::VarI32(c.read_var_i32()?),
             "i32" => Dyn::I32(i32::deserialize(c)?),
             "u64" => Dyn::U64(u64::deserialize(c)?),
             "i64" => Dyn::I64(i64::deserialize(c)?),
